@@ -49,6 +49,36 @@ def _bad(v, sig, what):
     v.append(dict(sig=sig, what=what))
 
 
+def _sink_counts(sc, obs, v, sig):
+    """a sink's received-parts counter = the parts carried by the items of its received records (every part of a batch counts,
+    an empty batch carries none).  The parts of an item are read from where it was seen before the op; a sink whose item was
+    never seen (generated or re-batched and delivered within one op) is left out from then on."""
+    ents, _ = _ents(sc)
+    expect, known = Counter(), {}
+    prev = None
+    for i, o in enumerate(obs):
+        if o['st'] not in (0, 2, 3):
+            return
+        seen = {}
+        if prev is not None:
+            for d, e in prev['devices'].items():
+                for slot, it in _items_in(e):
+                    if slot != 'inprog':
+                        seen[it['id']] = len(it['leaves'])
+        for r in o['data']:
+            if r[0] == 6 and ents.get(r[1], {}).get('kind') == 'sink':
+                if r[4] in seen and known.get(r[1], True):
+                    expect[r[1]] += seen[r[4]]
+                else:
+                    known[r[1]] = False
+        for d, e in o['devices'].items():
+            if e['kind'] == 6 and known.get(d, True) and e['received'] != expect[d]:
+                _bad(v, sig, 'op %d %s (t=%d): sink %d reports %d received parts, the items of its received_part records carry %d parts' % (
+                    i, o['op'], o['now'], d, e['received'], expect[d]))
+                return
+        prev = o
+
+
 # ------------------------------------------------------------------------------------------ C02
 def monitor_c02(sc, obs):
     v = []
@@ -588,6 +618,7 @@ def _c13_stuck(sc, obs, v):
 # ------------------------------------------------------------------------------------------ C15
 def monitor_c15(sc, obs):
     v = []
+    _sink_counts(sc, obs, v, 'C15/received-parts')
     ents, _ = _ents(sc)
     last_level, last_pool = {}, {}
     counts = Counter()
@@ -696,6 +727,7 @@ def monitor_c16(sc, obs):
 # ------------------------------------------------------------------------------------------ C17
 def monitor_c17(sc, obs):
     v = []
+    _sink_counts(sc, obs, v, 'C17/sink-count')
     arrived, left = {}, {}
     prev = None
     for i, o in enumerate(obs):
